@@ -636,6 +636,21 @@ fn nested_sweep(which: Which, tier: Tier) -> Sweep {
     .with_post_abort(abort_verdict)
 }
 
+fn value_boundary_sweep(which: Which, tier: Tier) -> Sweep {
+    let fam = Rc::new(sem::value_boundary_family(tier.pick(3, 3)));
+    let f2 = fam.clone();
+    Sweep::new(
+        "value-boundary family (literals, almost-literals, computed terms, aliases and functions as members of one group)",
+        fam.len() as u64,
+        move |idx| {
+            count!("value_boundary_programs");
+            examine(&fam[idx as usize], which, tier)
+        },
+        move |idx| f2[idx as usize].clone(),
+    )
+    .with_post_abort(abort_verdict)
+}
+
 fn type_group_sweep(which: Which, tier: Tier) -> Sweep {
     let fam = Rc::new(sem::group_types_with(tier.pick(3, 3), true));
     let f2 = fam.clone();
@@ -993,6 +1008,7 @@ pub fn sweeps_for(which: Which, tier: Tier) -> Vec<Sweep> {
     match which {
         Which::C01 => {
             v.push(nested_sweep(which, tier));
+            v.push(value_boundary_sweep(which, tier));
             v.push(typed_sweep(which, tier, true, true));
             v.push(small_sweep(which, tier));
             v.push(alias_sweep(which, tier));
@@ -1003,6 +1019,7 @@ pub fn sweeps_for(which: Which, tier: Tier) -> Vec<Sweep> {
         }
         Which::C02 => {
             v.push(nested_sweep(which, tier));
+            v.push(value_boundary_sweep(which, tier));
             v.push(known_result_sweep("operand sweep: every operator on every pair of boundary integers", operand_programs(), tier));
             v.push(known_result_sweep("recursion, evaluation-order probes, examples", recursion_programs(), tier));
             v.push(expression_sentence_sweep(tier));
@@ -1020,6 +1037,7 @@ pub fn sweeps_for(which: Which, tier: Tier) -> Vec<Sweep> {
         }
         Which::C04 => {
             v.push(nested_sweep(which, tier));
+            v.push(value_boundary_sweep(which, tier));
             v.push(typed_sweep(which, tier, true, true));
             v.push(alias_sweep(which, tier));
             v.push(small_sweep(which, tier));
@@ -1027,6 +1045,7 @@ pub fn sweeps_for(which: Which, tier: Tier) -> Vec<Sweep> {
         }
         Which::C06 => {
             v.push(nested_sweep(which, tier));
+            v.push(value_boundary_sweep(which, tier));
             v.push(normalizer_operand_sweep());
             v.push(typed_sweep(which, tier, false, false));
             v.push(alias_sweep(which, tier));
